@@ -62,7 +62,7 @@ pred BalCInv(r *balanceReporterCollapsed) := r != nil && r.output != nil && Tree
 pred BalSInv(r *balanceSingleReporter) := r != nil && r.output != nil && TreeInv() && r.root in tnodes && DBIs(r.db)
 
 func newBalanceReporter returns (r)
-  props C03 C08 C17
+  props C03 C08 C17 C05
   requires @tree TreeInv()
   modifies ghost(bufSink, bufSticky, tnodes, tdepth, tmax, tmapOf, jlen, tvLen, tv, tseg, tvSet)
   ensures @fresh fresh(r) && fresh(r.output) && BalInv(r) && r.db == db
@@ -71,7 +71,7 @@ func newBalanceReporter returns (r)
   ghost before return 1 { set tnodes := store(tnodes, r.root, true); set tdepth := store(tdepth, r.root, 0); set tmapOf := store(tmapOf, r.root.Children, r.root); set tmax := if tmax < 0 then 0 else tmax }
 
 func (*balanceReporter).Process returns (err)
-  props C03 C08 C17
+  props C03 C08 C17 C05
   requires @args ln != nil && BalInv(r)
   modifies heap(shared.TreeNode), maps(string, *shared.TreeNode)
   modifies ghost(tnodes, tdepth, tmax, tmapOf, jlen, tvLen, tv, tseg, tvSet)
@@ -118,7 +118,7 @@ func (*balanceReporterCollapsed).Flush returns (err)
   ensures @reports-loss [C17] err == nil ==> !bufSticky[r.output] && sinkPend[bufSink[r.output]] == 0
 
 func newBalanceSingleReporter returns (r)
-  props C03 C08 C17 C07
+  props C03 C08 C17 C07 C05
   requires @tree TreeInv() && DBIs(db)
   modifies ghost(bufSink, bufSticky, tnodes, tdepth, tmax, tmapOf, jlen, tvLen, tv, tseg, tvSet)
   ensures @fresh fresh(r) && fresh(r.output) && BalSInv(r) && r.db == db && r.total == 0.0 && r.singleElement == config.SingleElement
@@ -127,7 +127,7 @@ func newBalanceSingleReporter returns (r)
   ghost before return 1 { set tnodes := store(tnodes, r.root, true); set tdepth := store(tdepth, r.root, 0); set tmapOf := store(tmapOf, r.root.Children, r.root); set tmax := if tmax < 0 then 0 else tmax }
 
 func (*balanceSingleReporter).Process returns (err)
-  props C03 C08 C17 C07
+  props C03 C08 C17 C07 C05
   requires @args ln != nil && BalSInv(r)
   modifies *r, heap(shared.TreeNode), maps(string, *shared.TreeNode)
   modifies ghost(tnodes, tdepth, tmax, tmapOf, jlen, tvLen, tv, tseg, tvSet)
@@ -157,7 +157,7 @@ func (*balanceSingleReporter).Process returns (err)
   }
 
 func (*balanceSingleReporter).Flush returns (err)
-  props C03 C08 C17
+  props C03 C08 C17 C05
   requires @args BalSInv(r)
   modifies ghost(bufSticky, sinkFailed, sinkPend, prLen, prSink, prArg, prArgs, jlen)
   ensures @sink [C17] BufStep(r.output)
